@@ -20,6 +20,7 @@ PROP_MODULES = {
     "C16": ["contracts.c16"],
     "C17": ["contracts.c17"],
     "C05": ["contracts.c05"],
+    "C08": ["contracts.c08"],
 }
 
 
